@@ -26,7 +26,7 @@ NAMES = ["ax", "ay", "az", "tagx", "tagy", "tagz", "rnd", "near", "cix", "ciy", 
 
 
 def cases(tier, seed):
-    n = 14 if tier == "quick" else 300
+    n = 14 if tier == "quick" else 800
     rng = random.Random(seed + 1600)
     cs = []
     for i in range(n):
@@ -162,6 +162,8 @@ def judge(out, m, vol, n, pos, L, fl):
                     probs.append(f"level {lv} box {lo}..{hi}: min/max rows are not the extrema of the written data")
             if len(probs) > 8:
                 return probs, nb, nd, nu
+    if not probs:
+        probs += ["format: " + x for x in refmodel.conform(out)]
     return probs, nb, nd, nu
 
 
